@@ -1,8 +1,49 @@
 package main
 
-// C02: GoLite targets (docs/GOLITE_NOTES.md).
+// C02: GoLite targets (docs/GOLITE_NOTES.md). Theorems: coq/props/C02_Generated.v
+// (proofs in coq/theories/C02_GenProofs.v), table in docs/audit/C02.md section "GoLite".
 func init() {
+	const v = ".../verifier"
+	const tp = ".../verifier/trustpolicy"
+	const fw = "github.com/notaryproject/notation-plugin-framework-go/plugin"
+	const sig = "github.com/notaryproject/notation-core-go/signature"
 	Register("C02", []Target{
-		{Pkg: ".../verifier", Func: "isCriticalFailure", NonNil: true},
+		{Pkg: v, Func: "isCriticalFailure", NonNil: true},
+		// the level tables and the override logic
+		{Pkg: tp, Func: "(*SignatureVerification).GetVerificationLevel"},
+		// version gate
+		{Pkg: "golang.org/x/mod/semver", Func: "Compare", Oracle: true},
+		{Pkg: v, Func: "isRequiredVerificationPluginVer"},
+		{Pkg: ".../internal/semver", Func: "IsValid"},
+		// revocation answer shape
+		{Pkg: "crypto/x509", Type: "Certificate", Opaque: true, Views: map[string]string{"Subject.String()": "string"}},
+		{Pkg: v, Func: "checkRevocationResults"},
+		{Pkg: v, Func: "revocationFinalResult"},
+		// extended attributes
+		{Pkg: ".../internal/slices", Func: "Contains"},
+		{Pkg: ".../internal/slices", Func: "ContainsAny"},
+		{Pkg: sig, Func: "(*SignerInfo).ExtendedAttribute"},
+		{Pkg: v, Func: "extractCriticalStringExtendedAttribute", NonNil: true},
+		{Pkg: v, Func: "getVerificationPlugin", NonNil: true},
+		{Pkg: v, Func: "getVerificationPluginMinVersion", NonNil: true},
+		{Pkg: v, Func: "getNonPluginExtendedCriticalAttributes", NonNil: true},
+		// plugin answer
+		{Pkg: fw, Type: "VerifyPlugin", Opaque: true},
+		{Pkg: fw, Func: "VerifyPlugin.GetMetadata", Oracle: true},
+		{Pkg: fw, Type: "Plugin", Opaque: true},
+		{Pkg: ".../plugin", Type: "Manager", Opaque: true},
+		{Pkg: ".../plugin", Func: "Manager.Get", Oracle: true},
+		{Pkg: v, Func: "processPluginResponse", NonNil: true},
+		{Pkg: v, Func: "executePlugin", Oracle: true},
+		{Pkg: v, Func: "verifyIntegrity", Oracle: true},
+		{Pkg: v, Func: "loadX509TrustStores", Oracle: true},
+		{Pkg: v, Func: "verifyAuthenticity", Oracle: true},
+		{Pkg: v, Func: "verifyX509TrustedIdentities", Oracle: true},
+		{Pkg: v, Func: "verifyExpiry", Oracle: true},
+		{Pkg: v, Func: "verifyAuthenticTimestamp", Oracle: true},
+		// real target refused: `v.revocationCodeSigningValidator == nil` compares a one-method interface with nil (verifier/verifier.go:593)
+		{Pkg: v, Func: "(*verifier).verifyRevocation", Oracle: true},
+		{Pkg: v, Func: "logVerificationResult", NonNil: true},
+		{Pkg: v, Func: "(*verifier).processSignature"},
 	})
 }
